@@ -4,6 +4,8 @@ import (
 	"errors"
 	"io"
 	"net"
+	"reflect"
+	"strings"
 	"time"
 
 	"github.com/eclipse/paho.mqtt.golang/packets"
@@ -29,10 +31,10 @@ type vConn struct {
 	closed  bool
 }
 
-func (c *vConn) Close() error                       { c.closed = true; return nil }
-func (c *vConn) SetDeadline(t time.Time) error      { return nil }
-func (c *vConn) Read(p []byte) (int, error)         { return 0, io.EOF }
-func (c *vConn) Write(p []byte) (int, error)        { return len(p), nil }
+func (c *vConn) Close() error                  { c.closed = true; return nil }
+func (c *vConn) SetDeadline(t time.Time) error { return nil }
+func (c *vConn) Read(p []byte) (int, error)    { return 0, io.EOF }
+func (c *vConn) Write(p []byte) (int, error)   { return len(p), nil }
 
 func vReadPacket(r io.Reader) (packets.ControlPacket, error) {
 	c := r.(*vConn)
@@ -61,9 +63,21 @@ func (s *vStorage) get(key string) (*string, error) {
 	}
 	return nil, nil
 }
-func (s *vStorage) getPrefix(prefix string, keysOnly bool) (map[string]string, error) { return nil, nil }
-func (s *vStorage) put(key, value string) error                                      { s.kv[key] = value; return nil }
-func (s *vStorage) delete(key string) error                                          { delete(s.kv, key); return nil }
+func (s *vStorage) getPrefix(prefix string, keysOnly bool) (map[string]string, error) {
+	return nil, nil
+}
+func (s *vStorage) put(key, value string) error { s.kv[key] = value; return nil }
+func (s *vStorage) delete(key string) error {
+	_, existed := s.kv[key]
+	delete(s.kv, key)
+	if existed && vWatchCh != nil {
+		vWatchCh <- map[string]*string{key: nil} // the store's delete watch (when a harness keeps it live)
+	}
+	return nil
+}
+
+var vWatchCh chan map[string]*string
+
 func (s *vStorage) watchDelete(prefix string) (<-chan map[string]*string, func(), error) {
 	return nil, func() {}, nil
 }
@@ -88,11 +102,31 @@ func vSessionDecode(s *Session, str string) error {
 		return errors.New("no such session")
 	}
 	s.info.EGName, s.info.Name, s.info.ClientID, s.info.CleanFlag = src.EGName, src.Name, src.ClientID, src.CleanFlag
+	// yaml: a field tagged omitempty is left out of the record when empty, and a key that is
+	// absent leaves the decoded field at its zero value (a nil map)
+	if len(src.Topics) == 0 && vYAMLOmitEmpty("Topics") {
+		s.info.Topics = nil
+		return nil
+	}
 	s.info.Topics = map[string]int{}
 	for k, v := range src.Topics {
 		s.info.Topics[k] = v
 	}
 	return nil
+}
+
+func vYAMLOmitEmpty(field string) bool {
+	t := reflect.TypeOf(SessionInfo{})
+	for i := 0; i < t.NumField(); i++ {
+		if f := t.Field(i); f.Name == field {
+			for _, part := range strings.Split(f.Tag.Get("yaml"), ",")[1:] {
+				if part == "omitempty" {
+					return true
+				}
+			}
+		}
+	}
+	return false
 }
 
 func vNoResend(s *Session) {}
@@ -107,6 +141,7 @@ func vC16Broker(maxConn int) *Broker {
 		connectionLimiter: &Limiter{}, done: make(chan struct{})}
 	verifInitMaps(b) // maps a bypassed constructor would have made
 	vStore = &vStorage{kv: map[string]string{}}
+	vWatchCh = nil
 	b.sessMgr = &SessionManager{broker: b, store: vStore, storeCh: make(chan SessionStore, 64), done: make(chan struct{})}
 	verifInitMaps(b.sessMgr) // maps a bypassed constructor would have made
 	return b
@@ -339,6 +374,55 @@ func verifC16_ReconnectViaOtherMember() {
 	cl := b1.clients["a"]
 	verifAssert(cl != nil && cl.session != nil && len(cl.session.info.Topics) == 2, "resumed-session-holds-every-subscription")
 	verifCover("came-back-through-another-member")
+}
+
+// verifC16_CleanReconnectWithLiveWatch: the broker's delete watch on the session store is LIVE
+// (every delete of an existing session key comes back as a delete event, as etcd delivers it).
+// A client with a persistent session goes away; the same id connects with cleanSession=true:
+// the previous session is discarded (no earlier subscription routes to it) and the new
+// connection stays registered and connected - nothing the connect does may come back through
+// the watch and tear the new connection down.
+func verifC16_CleanReconnectWithLiveWatch() {
+	b := vC16Broker(10)
+	vWatchCh = make(chan map[string]*string, 8)
+	go b.watchDelete(vWatchCh, func() {})
+	c1 := vConnect("a", false, "t1")
+	go b.handleConn(c1)
+	verifQuiesce()
+	verifAssert(c1.connack == int(packets.Accepted) && vRouted(b, "t1", "a"), "connected-and-subscribed")
+	close(c1.drop)
+	verifQuiesce()
+	c2 := vConnect("a", true, "t2")
+	go b.handleConn(c2)
+	verifQuiesce()
+	verifAssert(c2.connack == int(packets.Accepted), "connected-and-subscribed")
+	cl := b.clients["a"]
+	verifAssert(cl != nil && cl.conn == net.Conn(c2) && !cl.disconnected() && !c2.closed, "new-connection-stays-registered-and-connected")
+	verifAssert(!vRouted(b, "t1", "a"), "clean-session-discards-the-previous-subscriptions")
+	verifAssert(vRouted(b, "t2", "a"), "new-connection-subscribes-and-receives")
+	verifCover("clean-reconnect-after-a-persistent-session")
+	vWatchCh = nil
+}
+
+// verifC16_ReconnectThenSubscribe: a persistent session that was stored WITHOUT any subscription
+// is resumed from the store and subscribes then: the session works like any other (what the
+// stored record leaves out when a field is empty - read from the yaml tags of the current
+// source - must not leave the resumed session half initialised).
+func verifC16_ReconnectThenSubscribe() {
+	b := vC16Broker(10)
+	c1 := vConnect("a", false, "")
+	go b.handleConn(c1)
+	verifQuiesce()
+	verifAssert(c1.connack == int(packets.Accepted), "connected-and-subscribed")
+	close(c1.drop)
+	verifQuiesce()
+	c2 := vConnect("a", false, "t1")
+	go b.handleConn(c2)
+	verifQuiesce()
+	verifAssert(c2.connack == int(packets.Accepted) && vRouted(b, "t1", "a"), "resumed-session-subscribes-and-receives")
+	cl := b.clients["a"]
+	verifAssert(cl != nil && cl.session != nil && len(cl.session.info.Topics) == 1, "resumed-session-holds-every-subscription")
+	verifCover("resumed-without-subscriptions")
 }
 
 // verifC17_MQTTCapReturning: the cap counts CONNECTED clients; a session the broker still keeps
